@@ -1,6 +1,7 @@
 /- The fact values the C20 (and, for the shared builder, C07) theorems are proved for; the
    oracles run the model with these. -/
 import EinoV.Model.C20Builder
+import EinoV.Model.C20Keys
 namespace EinoV.Expected.C20
 open EinoV.Build
 
@@ -27,5 +28,10 @@ def wfInputsReplayedInDeclaredOrder : Bool := true
 
 /-- fields of `g` that `compile` may assign (only the flag) -/
 def compileAssigns : List String := ["compiled"]
+
+/-- key options: `forMapInput` / `forMapOutput` accept the nil helper of a pass-through node whose
+    own type is not inferred yet, and `compile` refuses a node whose own type is unknown (the good
+    values; the unrepaired source has neither: finding `C20:panic:*:keyed-passthrough`) -/
+def kfacts : KFacts := { helperNilSafe := true, compileChecksOwnTypes := true }
 
 end EinoV.Expected.C20
